@@ -141,6 +141,67 @@ def callee(call):
     return None
 
 
+def const_int(n):
+    """Value of an integer constant expression of the AST (literals, | & ^ << >> + - ~, casts); None if not constant."""
+    n = strip(n)
+    if not n:
+        return None
+    k = n.get("kind")
+    if k == "IntegerLiteral":
+        return int(n.get("value"))
+    if k == "CharacterLiteral":
+        return int(n.get("value"))
+    if k == "UnaryOperator":
+        v = const_int(n["inner"][0])
+        if v is None:
+            return None
+        return {"-": -v, "~": ~v, "+": v, "!": int(not v)}.get(n.get("opcode"))
+    if k == "BinaryOperator":
+        a, b = const_int(n["inner"][0]), const_int(n["inner"][1])
+        if a is None or b is None:
+            return None
+        op = n.get("opcode")
+        try:
+            return {"|": a | b, "&": a & b, "^": a ^ b, "<<": a << b, ">>": a >> b, "+": a + b, "-": a - b,
+                    "*": a * b}.get(op)
+        except Exception:
+            return None
+    return None
+
+
+def failure_returns(func):
+    """ReturnStmt nodes that report an error to Python: literal NULL/0/-1, or a variable whose every
+    assignment in the function is the result of a PyErr_* call (the RAISE macro)."""
+    err_vars = {}
+    for n in walk(func.body):
+        if n.get("kind") == "BinaryOperator" and n.get("opcode") == "=":
+            l = strip(n["inner"][0])
+            r = strip(n["inner"][1])
+            if l.get("kind") == "DeclRefExpr":
+                nm = (l.get("referencedDecl") or {}).get("id")
+                is_err = r.get("kind") == "CallExpr" and (callee(r) or "").startswith("PyErr_")
+                err_vars[nm] = err_vars.get(nm, True) and is_err
+    out = []
+    for n in walk(func.body):
+        if n.get("kind") != "ReturnStmt":
+            continue
+        inner = n.get("inner", [])
+        if not inner:
+            continue
+        e = strip(inner[0])
+        while e and e.get("kind") in ("ParenExpr", "CStyleCastExpr", "ImplicitCastExpr"):
+            e = strip(e["inner"][0])
+        if e.get("kind") == "IntegerLiteral" and e.get("value") == "0":
+            out.append(n)
+        elif e.get("kind") == "UnaryOperator" and e.get("opcode") == "-":
+            out.append(n)
+        elif e.get("kind") == "DeclRefExpr" and err_vars.get((e.get("referencedDecl") or {}).get("id")):
+            out.append(n)
+        elif e.get("kind") == "CallExpr" and (callee(e) or "").startswith("PyErr_"):
+            out.append(n)
+    return out
+
+
 def call_args(call):
     return call.get("inner", [])[1:]
 
